@@ -139,7 +139,7 @@ def finish(ctx: Ctx, cmd: str) -> int:
     # obligations that failed on a listed known finding are reported separately
     obligations = discharged + len(unknown)
     instances = sum(s.instances for s in ctx.rules.values())
-    functions = sorted({f for s in ctx.rules.values() for f in s.functions})
+    functions = sorted({f for s in ctx.rules.values() for f in s.functions} | (set(ctx.repo.accessed) if ctx.repo is not None else set()))
     samples = []
     for s in ctx.rules.values():
         for x in s.samples[:2]:
@@ -177,6 +177,7 @@ def finish(ctx: Ctx, cmd: str) -> int:
                 for s in ctx.rules.values()
             ],
             "functions_analysed": len(functions),
+            "functions_fetched": functions[:400],
             "files_consulted": ctx.repo.digest() if ctx.repo is not None else {},
             "known_findings_reported": nknown,
             "repo_counts": ctx.repo.counts() if ctx.repo is not None else {},
